@@ -105,6 +105,56 @@ def mixed_shapes(ctx, count):
                 break
 
 
+def writers(ctx, count):
+    """output commands are consumers too: writing 1-4 results (CSV, NetCDF) or printing them leaves every written result as it was"""
+    import os, io, contextlib
+    from . import c18
+    from mpilot.libraries.eems.netcdf.io import EEMSWrite as NcWrite
+    from mpilot.libraries.eems.csv.io import EEMSWrite as CsvWrite
+    from mpilot.libraries.eems.basic import PrintVars
+    rng = ctx.rng
+    tmp = common.tmpdir("mpv_c09_")
+    for i in range(count):
+        kind = rng.choice(["netcdf", "netcdf", "csv", "print"])
+        shape = rng.choice(c18.SHAPES) if kind == "netcdf" else (rng.choice([1, 3, 6]),)
+        n = int(numpy.prod(shape))
+        k = rng.randrange(1, 5)
+        arrs = []
+        for j in range(k):
+            a = eems.rand_array(rng, shape, rng.choice([int, float]), None, rng.choice(["none", "one", "some"]))
+            if rng.random() < 0.3 and not numpy.ma.getmaskarray(a).any():
+                a = numpy.ma.array(numpy.ma.getdata(a))          # no mask array at all (mask is the scalar nomask)
+            arrs.append(a)
+        if kind == "csv":
+            arrs = [numpy.ma.array(numpy.ma.getdata(a), mask=False) for a in arrs]     # the CSV writer's known finding concerns missing cells
+        snaps = [snapshot(a) for a in arrs]
+        prods = [eems.Producer(a, "res%d" % j, False) for j, a in enumerate(arrs)]
+        try:
+            with contextlib.redirect_stdout(io.StringIO()):
+                if kind == "netcdf":
+                    tpl = os.path.join(tmp, "tpl%d.nc" % (i % 4))
+                    c18.make_template(tpl, shape, rng)
+                    outp = os.path.join(tmp, "out%d.nc" % (i % 4))
+                    if os.path.exists(outp):
+                        os.remove(outp)
+                    NcWrite("W", []).execute(OutFileName=outp, OutFieldNames=prods, DimensionFileName=tpl, DimensionFieldName="elev")
+                elif kind == "csv":
+                    CsvWrite("W", []).execute(OutFileName=os.path.join(tmp, "out%d.csv" % (i % 4)), OutFieldNames=prods)
+                else:
+                    PrintVars("P", []).execute(InFieldNames=prods)
+            outcome = "ok"
+        except Exception as e:
+            outcome = type(e).__name__
+        ctx.case("writer %s %r %r" % (kind, shape, [a.tolist() for a in arrs]), sample=None)
+        ctx.count("c09_writer:" + kind)
+        for j, (s0, a) in enumerate(zip(snaps, arrs)):
+            d = changed(s0, a)
+            if d:
+                ctx.fail("%s EEMSWrite/PrintVars of %d results changed result no. %d: %s (outcome %s)" % (kind, k, j, d, outcome),
+                         {"writer": kind, "shape": shape, "results": [repr(x[4].tolist()) + " mask=" + repr(x[3].astype(int).tolist()) for x in snaps]})
+                break
+
+
 def run(ctx):
     ctx.check_proofs(["MPilot.Props.C09"])
     model = common.Model()
@@ -130,6 +180,7 @@ def run(ctx):
             ctx.disagree("heap:aliasing", c.describe(), "result is an input object: %s" % is_alias, "aliases = " + a)
     sequences(ctx, model, ctx.budget(60, 2500), 8)
     mixed_shapes(ctx, ctx.budget(150, 4000))
+    writers(ctx, ctx.budget(40, 1500))
     return ctx.finish(
         rule="(a) every data command incl. single-input forms of n-ary operators: inputs compared before/after one execute; "
              "(b) random sequences of up to 8 consumers (all 31 data commands) over 6 shared producer arrays and the results produced on "
